@@ -353,7 +353,7 @@ PROPS = {
     "C18": dict(
         variants={"native": ["galois_shmem", "galois_dist_async", "galois_gluon", "distbench"], "sched": ["galois_shmem"]},
         extra_harnesses=["dharness"],
-        units=[dict(type="hyp", harness="py:c18", quick=300, thorough=4500, workers=6),
+        units=[dict(type="hyp", harness="py:c18", quick=1200, thorough=18000, workers=8),
                dict(type="rc", harness="c15s", quick=9000, thorough=135000)],
         engine="hypothesis over MPI subprocesses; gsched for the update bitset",
         technique="property-based testing: (c15s unit) the update bitset's concurrent set()/reset() -- the dirty marks every sync depends on -- under the gsched schedule explorer; (py:c18) Hypothesis-generated graphs, host counts, partition policies, write/read locations, reductions (min, max, add, set), bitset on/off, forced wire encodings and multi-round write plans over eligible proxies; the distributed harness applies the plan with the library's own sync structures under mpirun and dumps every proxy before/after each sync; reference = reduction over the master's previous value and the written eligible contributions",
